@@ -327,8 +327,8 @@ theorem AnaA.append {reg : Registry} {st : AState} {a b : List Op} {N1 N2 : List
   rw [runOps_append]; exact h1.trans h2
 
 mutual
-  theorem anaA_expr (reg : Registry) : ∀ (e : Expr) (st : AState), fragAExpr e = true → st.inFunc = false →
-      AnaA st (runOps reg st (cExpr e)) (namesOf e)
+  theorem anaA_expr (fx : Fixes) (reg : Registry) : ∀ (e : Expr) (st : AState), fragAExpr e = true → st.inFunc = false →
+      AnaA st (runOps reg st (cExpr fx e)) (namesOf e)
     | .name n, st, hfr, hf => by
       simp only [cExpr, namesOf]
       exact anaA_load reg st n hf (by simpa [fragAExpr] using hfr)
@@ -338,40 +338,40 @@ mutual
     | .binop l r, st, hfr, hf => by
       simp only [fragAExpr, Bool.and_eq_true] at hfr
       simp only [cExpr, namesOf]
-      have h1 := anaA_expr reg l st hfr.1 hf
-      exact AnaA.append h1 (anaA_expr reg r _ hfr.2 (by rw [h1.inFunc, hf]))
+      have h1 := anaA_expr fx reg l st hfr.1 hf
+      exact AnaA.append h1 (anaA_expr fx reg r _ hfr.2 (by rw [h1.inFunc, hf]))
     | .subscript v i, st, hfr, hf => by
       simp only [fragAExpr, Bool.and_eq_true] at hfr
       simp only [cExpr, namesOf]
-      have h1 := anaA_expr reg v st hfr.1 hf
-      exact AnaA.append h1 (anaA_expr reg i _ hfr.2 (by rw [h1.inFunc, hf]))
+      have h1 := anaA_expr fx reg v st hfr.1 hf
+      exact AnaA.append h1 (anaA_expr fx reg i _ hfr.2 (by rw [h1.inFunc, hf]))
     | .ifExp t a b, st, hfr, hf => by
       simp only [fragAExpr, Bool.and_eq_true] at hfr
       simp only [cExpr, namesOf]
-      have h1 := anaA_expr reg t st hfr.1.1 hf
-      have h2 := anaA_expr reg a _ hfr.1.2 (by rw [h1.inFunc, hf])
+      have h1 := anaA_expr fx reg t st hfr.1.1 hf
+      have h2 := anaA_expr fx reg a _ hfr.1.2 (by rw [h1.inFunc, hf])
       have h12 := AnaA.append h1 h2
-      exact AnaA.append h12 (anaA_expr reg b _ hfr.2 (by rw [h12.inFunc, hf]))
+      exact AnaA.append h12 (anaA_expr fx reg b _ hfr.2 (by rw [h12.inFunc, hf]))
     | .tuple es, st, hfr, hf => by
       simp only [fragAExpr] at hfr
       simp only [cExpr, namesOf]
-      exact anaA_exprs reg es st hfr hf
+      exact anaA_exprs fx reg es st hfr hf
     | .list es, st, hfr, hf => by
       simp only [fragAExpr] at hfr
       simp only [cExpr, namesOf]
-      exact anaA_exprs reg es st hfr hf
+      exact anaA_exprs fx reg es st hfr hf
     | .attr _ _, _, hfr, _ => by simp [fragAExpr] at hfr
     | .call _ _, _, hfr, _ => by simp [fragAExpr] at hfr
     | .lambda _ _, _, hfr, _ => by simp [fragAExpr] at hfr
     | .comp _ _ _, _, hfr, _ => by simp [fragAExpr] at hfr
-  theorem anaA_exprs (reg : Registry) : ∀ (es : List Expr) (st : AState), fragAExprs es = true → st.inFunc = false →
-      AnaA st (runOps reg st (cExprs es)) (namesOfs es)
+  theorem anaA_exprs (fx : Fixes) (reg : Registry) : ∀ (es : List Expr) (st : AState), fragAExprs es = true → st.inFunc = false →
+      AnaA st (runOps reg st (cExprs fx es)) (namesOfs es)
     | [], st, _, _ => by simp only [cExprs, namesOfs]; exact AnaA.refl st
     | e :: es, st, hfr, hf => by
       simp only [fragAExprs, Bool.and_eq_true] at hfr
       simp only [cExprs, namesOfs]
-      have h1 := anaA_expr reg e st hfr.1 hf
-      exact AnaA.append h1 (anaA_exprs reg es _ hfr.2 (by rw [h1.inFunc, hf]))
+      have h1 := anaA_expr fx reg e st hfr.1 hf
+      exact AnaA.append h1 (anaA_exprs fx reg es _ hfr.2 (by rw [h1.inFunc, hf]))
 end
 
 mutual
@@ -469,14 +469,14 @@ theorem mem_addOnce {n m : Str} {l : List Str} (h : m ∈ addOnce n l) : m ∈ l
     · exact .inr (by simpa using h)
 
 /-- evaluating and analysing one fragment-A expression, in lock step -/
-theorem corr_expr (reg : Registry) {s : XState} {st : AState} (h : Corr s st) (f : Nat) (e : Expr)
+theorem corr_expr (fx : Fixes) (reg : Registry) {s : XState} {st : AState} (h : Corr s st) (f : Nat) (e : Expr)
     (hfr : fragAExpr e = true) :
-    AnaA st (runOps reg st (cExpr e)) (namesOf e) ∧
-    (∀ n ∈ (evalExpr f {} e s).1.ne, ∃ m ∈ (runOps reg st (cExpr e)).missing, m.name = n) ∧
+    AnaA st (runOps reg st (cExpr fx e)) (namesOf e) ∧
+    (∀ n ∈ (evalExpr f {} e s).1.ne, ∃ m ∈ (runOps reg st (cExpr fx e)).missing, m.name = n) ∧
     (∀ v, (evalExpr f {} e s).2 = .ok v → (evalExpr f {} e s).1 = s ∧
-        (noIfExpr e = true → (runOps reg st (cExpr e)).missing = st.missing)) ∧
+        (noIfExpr e = true → (runOps reg st (cExpr fx e)).missing = st.missing)) ∧
     (∀ x, (evalExpr f {} e s).2 = .error x → SameUpToLog s (evalExpr f {} e s).1) := by
-  have hA := anaA_expr reg e st hfr h.inFunc
+  have hA := anaA_expr fx reg e st hfr h.inFunc
   have hE := (evalA f).1 e s hfr
   refine ⟨hA, ?_, ?_, fun x hx => (hE.err x hx).1⟩
   · intro n hn
@@ -540,19 +540,19 @@ theorem cAll_cases (x : Str) (e : Expr) :
   · exact .inl rfl
 
 /-- the analysis of `x = e` after the value has been visited: store, then possibly `__all__` bookkeeping -/
-theorem assign_tail (reg : Registry) (st : AState) (x : Str) (e : Expr) (hf : st.inFunc = false) :
-    let tail := cTargets [Expr.name x] ++ cAll [Expr.name x] e
+theorem assign_tail (fx : Fixes) (reg : Registry) (st : AState) (x : Str) (e : Expr) (hf : st.inFunc = false) :
+    let tail := cTargets fx [Expr.name x] ++ cAll [Expr.name x] e
     (runOps reg st tail).heap = (storeTop st x).heap ∧ (runOps reg st tail).stack = st.stack ∧
     (runOps reg st tail).inFunc = false ∧ (runOps reg st tail).missing = st.missing ∧
     (x ≠ "__all__".toList → (runOps reg st tail).deferred = st.deferred) := by
   intro tail
-  have hst : runOps reg st (cTargets [Expr.name x]) = storeTop st x := by
+  have hst : runOps reg st (cTargets fx [Expr.name x]) = storeTop st x := by
     simp [cTargets, cTarget, runOps, step]
   rcases cAll_cases x e with h0 | ⟨hx, ns, h1⟩
-  · have : tail = cTargets [Expr.name x] := by simp only [tail, h0, List.append_nil]
+  · have : tail = cTargets fx [Expr.name x] := by simp only [tail, h0, List.append_nil]
     rw [this, hst]
     exact ⟨rfl, rfl, hf, rfl, fun _ => rfl⟩
-  · have : tail = cTargets [Expr.name x] ++ [Op.allNames ns] := by simp only [tail, h1]
+  · have : tail = cTargets fx [Expr.name x] ++ [Op.allNames ns] := by simp only [tail, h1]
     rw [this, runOps_append, hst]
     obtain ⟨a1, a2, a3, a4⟩ := allNames_shape reg (storeTop st x) ns hf
     exact ⟨a1, a2, a3.trans hf, a4, fun hne => absurd hx hne⟩
@@ -563,11 +563,11 @@ theorem runOps_setLine (reg : Registry) (st : AState) (l : Nat) (ops : List Op) 
     runOps reg st (.setLine l :: ops) = runOps reg { st with line := l } ops := rfl
 
 /-- analysis only: missing names are never dropped on fragment A and we stay outside function bodies -/
-theorem anaStmt (reg : Registry) : ∀ (stmt : Stmt) (ln : Nat) (st : AState), fragAStmt stmt = true → st.inFunc = false →
-    (∀ m ∈ st.missing, m ∈ (runOps reg st (cStmt ln stmt)).missing) ∧ (runOps reg st (cStmt ln stmt)).inFunc = false
+theorem anaStmt (fx : Fixes) (reg : Registry) : ∀ (stmt : Stmt) (ln : Nat) (st : AState), fragAStmt stmt = true → st.inFunc = false →
+    (∀ m ∈ st.missing, m ∈ (runOps reg st (cStmt fx ln stmt)).missing) ∧ (runOps reg st (cStmt fx ln stmt)).inFunc = false
   | .expr e, ln, st, hfr, hf => by
     simp only [cStmt]
-    have h := anaA_expr reg e st (by simpa [fragAStmt] using hfr) hf
+    have h := anaA_expr fx reg e st (by simpa [fragAStmt] using hfr) hf
     exact ⟨h.mono, by rw [h.inFunc, hf]⟩
   | .assign ts e, ln, st, hfr, hf => by
     simp only [fragAStmt, Bool.and_eq_true] at hfr
@@ -578,13 +578,13 @@ theorem anaStmt (reg : Registry) : ∀ (stmt : Stmt) (ln : Nat) (st : AState), f
       subst hts
       simp only [cStmt, List.append_assoc]
       rw [runOps_append]
-      have h := anaA_expr reg e st hfr.2 hf
-      obtain ⟨_, _, t3, t4, _⟩ := assign_tail reg (runOps reg st (cExpr e)) x e (by rw [h.inFunc, hf])
+      have h := anaA_expr fx reg e st hfr.2 hf
+      obtain ⟨_, _, t3, t4, _⟩ := assign_tail fx reg (runOps reg st (cExpr fx e)) x e (by rw [h.inFunc, hf])
       exact ⟨fun m hm => by rw [t4]; exact h.mono m hm, t3⟩
   | .pass, ln, st, _, hf => by simp only [cStmt]; exact ⟨fun _ h => h, hf⟩
   | .located l s, ln, st, hfr, hf => by
     simp only [cStmt, runOps_setLine]
-    exact anaStmt reg s l { st with line := l } (by simpa [fragAStmt] using hfr) hf
+    exact anaStmt fx reg s l { st with line := l } (by simpa [fragAStmt] using hfr) hf
   | .augAssign _ _, _, _, hfr, _ => by simp [fragAStmt] at hfr
   | .annAssign _ _ _, _, _, hfr, _ => by simp [fragAStmt] at hfr
   | .import_ _, _, _, hfr, _ => by simp [fragAStmt] at hfr
@@ -602,14 +602,14 @@ theorem anaStmt (reg : Registry) : ∀ (stmt : Stmt) (ln : Nat) (st : AState), f
   | .global_ _, _, _, hfr, _ => by simp [fragAStmt] at hfr
   | .nonlocal_ _, _, _, hfr, _ => by simp [fragAStmt] at hfr
 
-theorem anaStmts (reg : Registry) : ∀ (ss : List Stmt) (ln : Nat) (st : AState), fragA ss = true → st.inFunc = false →
-    (∀ m ∈ st.missing, m ∈ (runOps reg st (cStmts ln ss)).missing) ∧ (runOps reg st (cStmts ln ss)).inFunc = false
+theorem anaStmts (fx : Fixes) (reg : Registry) : ∀ (ss : List Stmt) (ln : Nat) (st : AState), fragA ss = true → st.inFunc = false →
+    (∀ m ∈ st.missing, m ∈ (runOps reg st (cStmts fx ln ss)).missing) ∧ (runOps reg st (cStmts fx ln ss)).inFunc = false
   | [], _, st, _, hf => by simp only [cStmts]; exact ⟨fun _ h => h, hf⟩
   | s :: ss, ln, st, hfr, hf => by
     simp only [fragA, List.all_cons, Bool.and_eq_true] at hfr
     simp only [cStmts, runOps_append]
-    obtain ⟨h1, h2⟩ := anaStmt reg s ln st hfr.1 hf
-    obtain ⟨h3, h4⟩ := anaStmts reg ss ln _ (by simpa [fragA] using hfr.2) h2
+    obtain ⟨h1, h2⟩ := anaStmt fx reg s ln st hfr.1 hf
+    obtain ⟨h3, h4⟩ := anaStmts fx reg ss ln _ (by simpa [fragA] using hfr.2) h2
     exact ⟨fun m hm => h3 m (h1 m hm), h4⟩
 
 /-- `x = v` in the reference semantics at module level: binds `x` in the globals, or runs out of fuel -/
@@ -699,22 +699,22 @@ theorem Corr.setLine {s : XState} {st : AState} (h : Corr s st) (l : Nat) : Corr
   ⟨h.names, h.noStar, h.ne, h.inFunc, h.topMem, h.topLt⟩
 
 /-- one statement of fragment A, reference semantics and analysis in lock step -/
-theorem stmtA (reg : Registry) : ∀ (stmt : Stmt) (f : Nat) (s : XState) (st : AState) (ln : Nat),
+theorem stmtA (fx : Fixes) (reg : Registry) : ∀ (stmt : Stmt) (f : Nat) (s : XState) (st : AState) (ln : Nat),
     fragAStmt stmt = true → Corr s st →
-    (∀ n ∈ (execStmt f {} stmt s).1.ne, ∃ m ∈ (runOps reg st (cStmt ln stmt)).missing, m.name = n) ∧
+    (∀ n ∈ (execStmt f {} stmt s).1.ne, ∃ m ∈ (runOps reg st (cStmt fx ln stmt)).missing, m.name = n) ∧
     (∀ fl, (execStmt f {} stmt s).2 = .ok fl →
-      fl = Flow.normal ∧ Corr (execStmt f {} stmt s).1 (runOps reg st (cStmt ln stmt)) ∧
-      (plainStmt stmt = true → (runOps reg st (cStmt ln stmt)).missing = st.missing ∧
-        (runOps reg st (cStmt ln stmt)).deferred = st.deferred))
+      fl = Flow.normal ∧ Corr (execStmt f {} stmt s).1 (runOps reg st (cStmt fx ln stmt)) ∧
+      (plainStmt stmt = true → (runOps reg st (cStmt fx ln stmt)).missing = st.missing ∧
+        (runOps reg st (cStmt fx ln stmt)).deferred = st.deferred))
   | stmt, 0, s, st, ln, hfr, h => by
-    have hm := (anaStmt reg stmt ln st hfr h.inFunc).1
+    have hm := (anaStmt fx reg stmt ln st hfr h.inFunc).1
     rw [execStmt]
     refine ⟨fun n hn => ?_, fun fl hfl => by cases hfl⟩
     obtain ⟨m, hmm, hmn⟩ := h.ne n hn
     exact ⟨m, hm m hmm, hmn⟩
   | .expr e, f + 1, s, st, ln, hfr, h => by
     have hfe : fragAExpr e = true := by simpa [fragAStmt] using hfr
-    obtain ⟨hA, hne, hok, _⟩ := corr_expr reg h f e hfe
+    obtain ⟨hA, hne, hok, _⟩ := corr_expr fx reg h f e hfe
     simp only [execStmt, cStmt, X.bind_def]
     cases hr : evalExpr f {} e s with
     | mk s' r =>
@@ -737,9 +737,9 @@ theorem stmtA (reg : Registry) : ∀ (stmt : Stmt) (f : Nat) (s : XState) (st : 
       subst hts
       rw [hsn] at hfr
       have hx : simpleName x = true := hfr.1
-      obtain ⟨hA, hne, hok, _⟩ := corr_expr reg h f e hfr.2
-      have hf1 : (runOps reg st (cExpr e)).inFunc = false := by rw [hA.inFunc, h.inFunc]
-      obtain ⟨t1, t2, t3, t4, t5⟩ := assign_tail reg (runOps reg st (cExpr e)) x e hf1
+      obtain ⟨hA, hne, hok, _⟩ := corr_expr fx reg h f e hfr.2
+      have hf1 : (runOps reg st (cExpr fx e)).inFunc = false := by rw [hA.inFunc, h.inFunc]
+      obtain ⟨t1, t2, t3, t4, t5⟩ := assign_tail fx reg (runOps reg st (cExpr fx e)) x e hf1
       simp only [execStmt, cStmt, List.append_assoc, X.bind_def]
       rw [runOps_append]
       cases hr : evalExpr f {} e s with
@@ -772,7 +772,7 @@ theorem stmtA (reg : Registry) : ∀ (stmt : Stmt) (f : Nat) (s : XState) (st : 
     exact ⟨h.ne, fun fl hfl => ⟨by cases hfl; rfl, h, fun _ => ⟨rfl, rfl⟩⟩⟩
   | .located l s', f + 1, s, st, ln, hfr, h => by
     simp only [execStmt, cStmt, runOps_setLine]
-    have := stmtA reg s' f s { st with line := l } l (by simpa [fragAStmt] using hfr) (h.setLine l)
+    have := stmtA fx reg s' f s { st with line := l } l (by simpa [fragAStmt] using hfr) (h.setLine l)
     refine ⟨this.1, fun fl hfl => ?_⟩
     obtain ⟨a, b, c⟩ := this.2 fl hfl
     exact ⟨a, b, fun hp => c (by simpa [plainStmt] using hp)⟩
@@ -793,15 +793,15 @@ theorem stmtA (reg : Registry) : ∀ (stmt : Stmt) (f : Nat) (s : XState) (st : 
   | .global_ _, _ + 1, _, _, _, hfr, _ => by simp [fragAStmt] at hfr
   | .nonlocal_ _, _ + 1, _, _, _, hfr, _ => by simp [fragAStmt] at hfr
 
-theorem stmtsA (reg : Registry) : ∀ (ss : List Stmt) (f : Nat) (s : XState) (st : AState) (ln : Nat),
+theorem stmtsA (fx : Fixes) (reg : Registry) : ∀ (ss : List Stmt) (f : Nat) (s : XState) (st : AState) (ln : Nat),
     fragA ss = true → Corr s st →
-    (∀ n ∈ (execStmts f {} ss s).1.ne, ∃ m ∈ (runOps reg st (cStmts ln ss)).missing, m.name = n) ∧
+    (∀ n ∈ (execStmts f {} ss s).1.ne, ∃ m ∈ (runOps reg st (cStmts fx ln ss)).missing, m.name = n) ∧
     (∀ fl, (execStmts f {} ss s).2 = .ok fl →
-      Corr (execStmts f {} ss s).1 (runOps reg st (cStmts ln ss)) ∧
-      (ss.all plainStmt = true → (runOps reg st (cStmts ln ss)).missing = st.missing ∧
-        (runOps reg st (cStmts ln ss)).deferred = st.deferred))
+      Corr (execStmts f {} ss s).1 (runOps reg st (cStmts fx ln ss)) ∧
+      (ss.all plainStmt = true → (runOps reg st (cStmts fx ln ss)).missing = st.missing ∧
+        (runOps reg st (cStmts fx ln ss)).deferred = st.deferred))
   | ss, 0, s, st, ln, hfr, h => by
-    have hm := (anaStmts reg ss ln st hfr h.inFunc).1
+    have hm := (anaStmts fx reg ss ln st hfr h.inFunc).1
     rw [execStmts]
     refine ⟨fun n hn => ?_, fun fl hfl => by cases hfl⟩
     obtain ⟨m, hmm, hmn⟩ := h.ne n hn
@@ -812,9 +812,9 @@ theorem stmtsA (reg : Registry) : ∀ (ss : List Stmt) (f : Nat) (s : XState) (s
   | stmt :: ss, f + 1, s, st, ln, hfr, h => by
     simp only [fragA, List.all_cons, Bool.and_eq_true] at hfr
     have hfr2 : fragA ss = true := by simpa [fragA] using hfr.2
-    obtain ⟨h1, h2⟩ := stmtA reg stmt f s st ln hfr.1 h
+    obtain ⟨h1, h2⟩ := stmtA fx reg stmt f s st ln hfr.1 h
     simp only [execStmts, cStmts, runOps_append, X.bind_def]
-    have hAna := anaStmt reg stmt ln st hfr.1 h.inFunc
+    have hAna := anaStmt fx reg stmt ln st hfr.1 h.inFunc
     cases hr : execStmt f {} stmt s with
     | mk s' r =>
       rw [hr] at h1 h2
@@ -823,12 +823,12 @@ theorem stmtsA (reg : Registry) : ∀ (ss : List Stmt) (f : Nat) (s : XState) (s
         simp only
         refine ⟨fun n hn => ?_, fun fl hfl => by cases hfl⟩
         obtain ⟨m, hm, hmn⟩ := h1 n hn
-        exact ⟨m, (anaStmts reg ss ln _ hfr2 hAna.2).1 m hm, hmn⟩
+        exact ⟨m, (anaStmts fx reg ss ln _ hfr2 hAna.2).1 m hm, hmn⟩
       | ok fl0 =>
         obtain ⟨hfl0, hc, hp⟩ := h2 fl0 rfl
         subst hfl0
         simp only
-        obtain ⟨r1, r2⟩ := stmtsA reg ss f s' _ ln hfr2 hc
+        obtain ⟨r1, r2⟩ := stmtsA fx reg ss f s' _ ln hfr2 hc
         refine ⟨r1, fun fl hfl => ?_⟩
         obtain ⟨c2, p2⟩ := r2 fl hfl
         refine ⟨c2, fun hall => ?_⟩
@@ -912,5 +912,105 @@ theorem runProgram_ok (fuel : Nat) (body : List Stmt) (s0 : XState) (h : (runPro
     cases r with
     | error e => rw [hr] at h; cases h
     | ok fl => exact ⟨fl, rfl⟩
+
+theorem initHeap_user' (builtins : Scope) (ns : List Scope) (a : Nat) (ha : a < ns.length) :
+    (initState builtins ns).heap.get (3 + a) = ns[a] := by
+  rw [initHeap_user builtins ns a ha]; simp [List.getD_eq_getElem?_getD, ha]
+
+theorem init_top (builtins : Scope) (ns : List Scope) : (initState builtins ns).stack.top = 3 + ns.length := by
+  obtain ⟨scopes, hids, _⟩ := initState_ids builtins ns
+  unfold StackRef.top; rw [hids, getLastD_snoc]
+
+theorem init_ids_mem (builtins : Scope) (ns : List Scope) (hnc : ∀ sc ∈ ns, sc.isClass = false) (i : Nat) :
+    i ∈ normIds (initState builtins ns).stack.ids ↔ i = 0 ∨ i = 1 ∨ (∃ a, a < ns.length ∧ i = 3 + a) ∨ i = 3 + ns.length := by
+  rw [(inv_init {} builtins ns).wf]
+  obtain ⟨scopes, hids, hsc⟩ := initState_ids builtins ns
+  rw [hids, List.mem_append, mem_normIds_iff, hsc]
+  simp only [List.mem_filter, mem_normIds_iff, List.mem_map, List.mem_range, List.mem_singleton]
+  constructor
+  · rintro ((h | h | ⟨h, _⟩) | h)
+    · exact .inl h
+    · exact .inr (.inl h)
+    · rcases h with h | h | ⟨a, ha, rfl⟩
+      · exact .inl h
+      · exact .inr (.inl h)
+      · exact .inr (.inr (.inl ⟨a, ha, by omega⟩))
+    · exact .inr (.inr (.inr h))
+  · rintro (h | h | ⟨a, ha, rfl⟩ | h)
+    · exact .inl (.inl h)
+    · exact .inl (.inr (.inl h))
+    · refine .inl (.inr (.inr ⟨.inr (.inr ⟨a, ha, by omega⟩), ?_⟩))
+      rw [initHeap_user' builtins ns a ha]
+      simp [hnc _ (List.getElem_mem ha)]
+    · exact .inr h
+
+theorem corr_init (builtins : Scope) (ns : List Scope) (s0 : XState) (h : Agree builtins ns s0) :
+    Corr s0 (initState builtins ns) := by
+  have hmem := init_ids_mem builtins ns h.noClass
+  have hget0 : (initState builtins ns).heap.get 0 = builtins := rfl
+  have hget1 : (initState builtins ns).heap.get 1 = { items := [("__file__".toList, Val.none)] } := rfl
+  have hb2 : ∀ n : Str, (({ items := [("__file__".toList, Val.none)] } : Scope).get n = none) ↔ n ≠ "__file__".toList := by
+    intro n
+    simp only [Scope.get, assocGet]
+    constructor
+    · intro hh hc; subst hc; simp at hh
+    · intro hh; rw [if_neg (Ne.symm hh)]
+  constructor
+  · intro n hn
+    have hA := h.names n hn
+    constructor
+    · intro hu i hi
+      have hnotR : ¬ (boundIn builtins n = true ∨ n = "__file__".toList ∨ ∃ sc ∈ ns, boundIn sc n = true) := by
+        intro hR
+        rcases hA.mpr hR with hg | hb
+        · rw [hu.1] at hg; cases hg
+        · rw [hu.2] at hb; cases hb
+      rcases (hmem i).mp hi with rfl | rfl | ⟨a, ha, rfl⟩ | rfl
+      · rw [hget0]
+        cases hg : builtins.get n with
+        | none => rfl
+        | some v => exact absurd (.inl (by simp [boundIn, hg])) hnotR
+      · rw [hget1, hb2]
+        intro hc; exact hnotR (.inr (.inl hc))
+      · rw [initHeap_user' builtins ns a ha]
+        cases hg : (ns[a]).get n with
+        | none => rfl
+        | some v => exact absurd (.inr (.inr ⟨_, List.getElem_mem ha, by simp [boundIn, hg]⟩)) hnotR
+      · rw [initHeap_priv]; rfl
+    · intro hu
+      have hnotR : ¬ (boundIn builtins n = true ∨ n = "__file__".toList ∨ ∃ sc ∈ ns, boundIn sc n = true) := by
+        rintro (hR | hR | ⟨sc, hsc, hR⟩)
+        · have := hu 0 ((hmem 0).mpr (.inl rfl))
+          rw [hget0] at this
+          simp [boundIn, this] at hR
+        · have := hu 1 ((hmem 1).mpr (.inr (.inl rfl)))
+          rw [hget1, hb2] at this
+          exact this hR
+        · obtain ⟨a, ha, hsa⟩ := List.getElem_of_mem hsc
+          have := hu (3 + a) ((hmem _).mpr (.inr (.inr (.inl ⟨a, ha, rfl⟩))))
+          rw [initHeap_user' builtins ns a ha, hsa] at this
+          simp [boundIn, this] at hR
+      constructor
+      · cases hg : assocGet n s0.globals with
+        | none => rfl
+        | some v => exact absurd (hA.mp (.inl (by simp [hg]))) hnotR
+      · cases hb : s0.builtins.contains n with
+        | false => rfl
+        | true => exact absurd (hA.mp (.inr hb)) hnotR
+  · unfold noStarA hasStar
+    rw [List.any_eq_false]
+    intro i hi
+    have hi' : i ∈ normIds (initState builtins ns).stack.ids := by
+      rw [(inv_init {} builtins ns).wf]; exact hi
+    rcases (hmem i).mp hi' with rfl | rfl | ⟨a, ha, rfl⟩ | rfl
+    · rw [hget0]; have := h.noStar.1; simpa [boundIn] using this
+    · rw [hget1]; simp [Scope.get, assocGet]
+    · rw [initHeap_user' builtins ns a ha]
+      have := h.noStar.2 _ (List.getElem_mem ha); simpa [boundIn] using this
+    · rw [initHeap_priv]; simp [Scope.get, assocGet]
+  · intro n hn; rw [h.ne0] at hn; simp at hn
+  · rfl
+  · rw [init_top]; exact (hmem _).mpr (.inr (.inr (.inr rfl)))
+  · exact (inv_init {} builtins ns).top_lt
 
 end Pfb.C05
